@@ -164,7 +164,25 @@ func c14HalfDeadNoticed(p *Program, r *Report) {
 				continue
 			}
 			e := mg.branchEdge(ifi, true)
-			if mcl[e.to] || !anyIn(mg.Reach([]int{e.to}, mcl, nil), mg.Exits) {
+			// a guard "the notice names this very actor" may stand in front of the close: its false edge is a foreign notice
+			_, foreign := callEdges(mg, func(c *ssa.Call) bool {
+				name := ""
+				if c.Call.IsInvoke() {
+					name = c.Call.Method.Name()
+				} else if y := c.Call.StaticCallee(); y != nil {
+					name = y.Name()
+				}
+				if name != "Equals" {
+					return false
+				}
+				for _, a := range c.Call.Args {
+					if ac, isC := strip(a).(*ssa.Call); isC && ac.Call.IsInvoke() && ac.Call.Method.Name() == "Ref" {
+						return true
+					}
+				}
+				return false
+			})
+			if mcl[e.to] || !anyIn(mg.Reach([]int{e.to}, mcl, foreign), mg.Exits) {
 				onDeath = true
 			}
 		}
@@ -204,4 +222,104 @@ func isZeroTime(v ssa.Value) bool {
 		}
 	}
 	return false
+}
+
+// c11DeadlinesBoundTheHandshake — a deadline armed for the handshake does not outlive the handshake.
+//
+// Deadlines on a net.Conn are absolute instants. One that a handshake half arms in front of its read / write and leaves on the
+// socket fires later, in the middle of the connection's life: the frame reader fails with an i/o timeout and the connection
+// actor dies with frames the peer has already written still unread — lost without a report, on a link the network never broke
+// (F46). In every function of the transport in which an arming Set{Read,Write,}Deadline dominates a Read / Write on the same
+// connection, every path from the arming call to a return passes a clearing call of the same kind (a deferred one counts).
+func c11DeadlinesBoundTheHandshake(p *Program, r *Report) {
+	isConn := func(t types.Type) bool { return typeIs(t, "net", "Conn") }
+	n := 0
+	for _, fn := range p.Mod {
+		pk := fnPkg(fn)
+		if pk == nil || !strings.Contains(pk.Path(), "/internal/remoting") || len(fn.Blocks) == 0 || fn.Parent() != nil {
+			continue
+		}
+		g := p.ig(fn)
+		connKey := func(v ssa.Value) ssa.Value { // a parameter captured by a deferred closure lives in a cell: every use is a load of it
+			if u, ok := v.(*ssa.UnOp); ok && u.Op == token.MUL {
+				if al, isAl := u.X.(*ssa.Alloc); isAl {
+					return al
+				}
+			}
+			return v
+		}
+		kindOf := func(in ssa.Instruction) (string, bool, ssa.Value) { // kind, arms, conn
+			c := callOf(in)
+			if c == nil || !c.IsInvoke() || !isConn(c.Value.Type()) {
+				return "", false, nil
+			}
+			switch c.Method.Name() {
+			case "SetReadDeadline", "SetWriteDeadline", "SetDeadline":
+				return c.Method.Name(), !isZeroTime(c.Args[0]), connKey(c.Value)
+			}
+			return "", false, nil
+		}
+		for ai, a := range g.Nodes {
+			kind, arms, conn := kindOf(a)
+			if kind == "" || !arms {
+				continue
+			}
+			want := map[string]string{"SetReadDeadline": "Read", "SetWriteDeadline": "Write"}[kind]
+			guards := false
+			for i, in := range g.Nodes {
+				c := callOf(in)
+				if c == nil || !c.IsInvoke() || connKey(c.Value) != conn {
+					continue
+				}
+				if (want == "" && (c.Method.Name() == "Read" || c.Method.Name() == "Write")) || c.Method.Name() == want {
+					if g.DominatedByNodes(i, setOf(ai)) {
+						guards = true
+					}
+				}
+			}
+			if !guards {
+				continue
+			}
+			n++
+			clears := map[int]bool{}
+			for i, in := range g.Nodes {
+				if k, ar, cv := kindOf(in); k == kind && !ar && cv == conn {
+					clears[i] = true
+				}
+				if d, isD := in.(*ssa.Defer); isD {
+					var body *ssa.Function
+					if mc, isMC := d.Call.Value.(*ssa.MakeClosure); isMC {
+						body, _ = mc.Fn.(*ssa.Function)
+					} else if y := d.Call.StaticCallee(); y != nil {
+						body = y
+					}
+					if body != nil {
+						for _, b := range body.Blocks {
+							for _, in2 := range b.Instrs {
+								c2 := callOf(in2)
+								if c2 != nil && c2.IsInvoke() && isConn(c2.Value.Type()) && c2.Method.Name() == kind && isZeroTime(c2.Args[0]) {
+									clears[i] = true
+								}
+							}
+						}
+					}
+				}
+			}
+			// the edge on which the arming call itself failed (nothing was armed) is not constrained
+			failed := map[edge]bool{}
+			for _, ifi := range g.ifs() {
+				for _, oc := range []bool{true, false} {
+					f, okf := condFact(ifi.Cond, oc)
+					if okf && f.IsNil && f.Op == token.NEQ && strip(f.X) == ssa.Value(a.(ssa.Value)) {
+						failed[g.branchEdge(ifi, oc)] = true
+					}
+				}
+			}
+			ok := len(clears) > 0 && !anyIn(g.ReachAfter(ai, clears, failed), g.Exits)
+			r.Check(ok, fmt.Sprintf("%s armed in %s is cleared before the function returns", kind, fnName(fn)), a.Pos(), "every path from the arming call to a return passes a clearing call of the same kind (or registers a deferred one): the deadline bounds the handshake step, not the life of the connection")
+		}
+	}
+	if n == 0 {
+		r.Unresolved("a deadline armed in front of a Read/Write in the transport")
+	}
 }
